@@ -135,6 +135,7 @@ class Engine:
         self.events = []  # generic event log for rules (appended by contracts)
         self.partition_filter = None  # callable(frame, block index, kind, detail) -> bool
         self.inline_filter = None  # callable(path) -> bool: may this local callee be inlined
+        self.model_lazy_collect = False  # analyse `iter.map(f).collect()` over an unknown-length iterator as an abstract loop (built, off: the invariant it infers for values captured by reference is too weak)
         self.on_closure = None  # hook(eng, st, frame, closure aggregate rvalue, captured operand values)
         self.on_agg = None  # hook(eng, st, frame, aggregate rvalue, operand values): observe ADT constructions
         self.on_call = None  # hook(eng, st, frame, f, args, site) -> outcomes or None
